@@ -240,10 +240,11 @@ static void op_fdim(int argc, char** a)
 
 /* ---------- C11 ---------- */
 #include "Huffman.h"
-/* huff <stateNum> <symbols>: encode_withTree / decode_withTree and the MSST19 pair */
+/* huff <stateNum> <symbols> [<dataEndianType>]: encode_withTree / decode_withTree and the MSST19 pair */
 static void op_huff(int argc, char** a)
 {
 	int stateNum = (int)hx(a[0]); uint64_t* l; size_t n = parse_list(a[1], &l);
+	dataEndianType = argc > 2 ? (int)hx(a[2]) : LITTLE_ENDIAN_DATA;      /* the byte order declared for raw input files (configuration key dataEndianType): nothing of the coder depends on it */
 	int* s = (int*)malloc((n + 1) * sizeof(int)); for (size_t i = 0; i < n; i++) s[i] = (int)l[i];
 	unsigned char* out = NULL; size_t outSize = 0;
 	HuffmanTree* t = createHuffmanTree(stateNum);
@@ -649,7 +650,11 @@ static void op_hist(int argc, char** a)
 				else if (t[0] == 'k') b = SZ_compress_customize(name, NULL, ty, data, r[0], r[1], r[2], r[3], r[4], &os, &cst);
 				else if (t[0] == 'T') { sz_params up = *confparams_cpr; up.errorBoundMode = mode; up.absErrBound = absb; up.relBoundRatio = rel; up.pw_relBoundRatio = pwr;
 					b = SZ_compress_customize_threadsafe("SZ", &up, ty, data, r[0], r[1], r[2], r[3], r[4], &os, &cst); }
-				else if (t[0] == 'U') { sz_params up = *confparams_cpr; up.errorBoundMode = mode; up.absErrBound = absb; up.relBoundRatio = rel; up.pw_relBoundRatio = pwr;
+				else if (t[0] == 'U') { sz_params up; memset(&up, 0, sizeof up);     /* a complete block of its own: nothing of the current configuration goes into it */
+					up.sol_ID = SZ; up.max_quant_intervals = 65536; up.quantization_intervals = 0; up.predThreshold = 0.99f; up.sampleDistance = 100; up.szMode = SZ_BEST_SPEED;
+					up.losslessCompressor = ZSTD_COMPRESSOR; up.gzipMode = 3; up.psnr = 90; up.normErr = 0.05; up.segment_size = 36; up.withRegression = SZ_WITH_LINEAR_REGRESSION;
+					up.accelerate_pw_rel_compression = 1; up.plus_bits = 3; up.pwr_type = SZ_PWR_MIN_TYPE; up.snapshotCmprStep = 5; up.predictionMode = SZ_PREVIOUS_VALUE_ESTIMATE;
+					up.errorBoundMode = mode; up.absErrBound = absb; up.relBoundRatio = rel; up.pw_relBoundRatio = pwr;
 					b = SZ_compress_customize("SZ", &up, ty, data, r[0], r[1], r[2], r[3], r[4], &os, &cst); }   /* (re-)initialises the library with this block, then compresses */
 				else { sz_params up = *confparams_cpr; b = SZ_compress_customize_threadsafe(name, &up, ty, data, r[0], r[1], r[2], r[3], r[4], &os, &cst); }
 				if (t[0] != 'c' && t[0] != 'T' && t[0] != 'U') { mode = confparams_cpr->errorBoundMode; absb = confparams_cpr->absErrBound; rel = confparams_cpr->relBoundRatio; }
